@@ -231,12 +231,21 @@ pub fn run(ctx: &mut Ctx) {
         // a share whose data is cut short (what a hostile or damaged share envelope may carry)
         let cut = rng.below(6);
         let short = s0.remove_assertion(a.clone()).add_assertion(known_values::SSKR_SHARE, SSKRShare::from_data(rng.bytes(cut)));
-        for (label, v) in [("salted", salted), ("elided-object", elided_obj), ("short-share-data", short)] {
-            let mut subset: Vec<&Envelope> = vec![&v];
+        let junk_obj = s0.remove_assertion(a.clone()).add_assertion(known_values::SSKR_SHARE, "not a share");
+        for (label, v) in [("salted", salted), ("elided-object", elided_obj), ("short-share-data", short), ("non-share-object", junk_obj)] {
+            // the odd envelope comes first or last among the genuine shares
+            let mut subset: Vec<&Envelope> = Vec::new();
+            let odd_first = rng.chance(1, 2);
+            if odd_first {
+                subset.push(&v);
+            }
             for grp in &shares {
                 for s in grp {
                     subset.push(s);
                 }
+            }
+            if !odd_first {
+                subset.push(&v);
             }
             match trap::guard(|| Envelope::sskr_join(&subset)) {
                 Err(p) => ctx.violation(&format!("decorated-join-panic/{}/{}", label, p.signature()), &format!("{:?}", p), jhex(&v)),
@@ -246,6 +255,29 @@ pub fn run(ctx: &mut Ctx) {
                     }
                 }
                 Ok(Err(_)) => {}
+            }
+            // whatever that join did, the next joins over the same split must be judged on their own
+            // shares only: one share below the policy, and the complete set
+            ctx.eval();
+            ctx.count("joins_after_failed_join");
+            let mut single: Vec<Vec<bool>> = groups.iter().map(|(_, c)| vec![false; *c]).collect();
+            single[0][0] = true;
+            let single_quorum = quorum(gt, &groups, &single);
+            match trap::guard(|| (Envelope::sskr_join(&[&shares[0][0]]).is_ok(), Envelope::sskr_join(&shares.iter().flatten().collect::<Vec<&Envelope>>()))) {
+                Ok((one, all)) => {
+                    if one != single_quorum {
+                        ctx.violation("after-failed-join/single-share", &format!("policy {}: right after a failed join, joining one share returned ok={} (quorum {})", pol, one, single_quorum), J::s(pol.clone()));
+                    }
+                    match all {
+                        Ok(x) => {
+                            if !x.is_identical_to(&wrapped) {
+                                ctx.violation("after-failed-join/wrong-envelope", "join of all shares returned another envelope", J::s(pol.clone()));
+                            }
+                        }
+                        Err(_) => ctx.violation("after-failed-join/quorum-rejected", &format!("policy {}: right after a failed join, joining ALL shares failed", pol), J::s(pol.clone())),
+                    }
+                }
+                Err(p) => ctx.violation(&format!("after-failed-join/panic/{}", p.signature()), &format!("{:?}", p), J::s(pol.clone())),
             }
         }
         ctx.sample(|| J::obj(vec![("case", J::i(case)), ("policy", J::s(pol.clone())), ("shares", J::i(n as u64)), ("subsets", J::i(1u64 << n))]));
